@@ -95,3 +95,43 @@ func Events(database string, def *fakesql.TableDef, q Queued) ([]*replication.Bi
 		{Header: &replication.EventHeader{EventType: typ}, Event: re},
 	}, nil
 }
+
+func kindOf(q Queued) string {
+	switch {
+	case q.Change.Before == nil:
+		return "insert"
+	case q.Change.After == nil:
+		return "delete"
+	}
+	return "update"
+}
+
+// SameEvent reports whether b can travel in the rows event that carries a: same kind of
+// change under the same table map (MySQL packs the rows one statement or transaction changes
+// in a table into one event).
+func SameEvent(a, b Queued) bool {
+	return kindOf(a) == kindOf(b) && a.TableID == b.TableID && a.NCols == b.NCols
+}
+
+// EventsMulti renders several queued changes of the same kind as ONE rows event with several
+// row images (pairs of images for updates).
+func EventsMulti(database string, def *fakesql.TableDef, qs []Queued) ([]*replication.BinlogEvent, error) {
+	if len(qs) == 1 {
+		return Events(database, def, qs[0])
+	}
+	var out []*replication.BinlogEvent
+	var re *replication.RowsEvent
+	for i, q := range qs {
+		evs, err := Events(database, def, q)
+		if err != nil {
+			return nil, err
+		}
+		if i == 0 {
+			out = evs
+			re = evs[1].Event.(*replication.RowsEvent)
+			continue
+		}
+		re.Rows = append(re.Rows, evs[1].Event.(*replication.RowsEvent).Rows...)
+	}
+	return out, nil
+}
